@@ -1,5 +1,7 @@
 import HgVerif.Model.NestShape
 import HgVerif.Model.Capture
+import HgVerif.Model.BoundaryKey
+import HgVerif.Model.NestRef
 import HgVerif.Driver.Proto
 /-! Model driver for the structured-boundary stream of C09: same line protocol as `harness/drv_nestshape.cpp`.
     The body vocabulary (rules, gate, timer) is interpreted here into the per-cycle writes of the body; the forwarding
@@ -40,7 +42,13 @@ def leavesOf : String → Nat
 
 def chansOf : String → Nat
   | "s1" => 1 | "s2" => 2 | "s3" => 3 | "ab" => 2 | "al" => 2 | "bs" => 3
-  | "cf" => 2 | "cr" => 2 | "cl" => 2 | "cs" => 1 | "cn" => 2 | "xf" => 2 | "sc" => 3 | _ => 0
+  | "cf" => 2 | "cr" => 2 | "cl" => 2 | "cs" => 1 | "cn" => 2 | "xf" => 2 | "sc" => 3 | "rs" => 3
+  | a => if a.length == 3 then 2 else 0
+
+/-- twins on the elements of one structured parameter: form (tl tb il ib t2) + twin code (i e m k) -/
+def twinForm (args : String) : String := if args.length == 3 then String.ofList (args.toList.take 2) else ""
+def twinCode (args : String) : Char := if args.length == 3 then args.toList.getD 2 ' ' else ' '
+def isTwin (args : String) : Bool := args.length == 3
 
 /-- the body's inputs are captured outer ports (no declared argument) -/
 def captured (args : String) : Bool := ["cf", "cr", "cl", "cs", "cn", "xf"].contains args
@@ -49,7 +57,10 @@ def pairs : List String :=
   ["ts:s1", "ts:ab", "b2:s2", "b2:ab", "b2:bs", "b3:s3", "b3:s1", "b4:s2", "b4:al", "l2:s1", "l2:al",
    "l3:s2", "l3:bs", "l4:s1", "l4:s3", "bl:s2", "bl:ab", "lb:s2", "lb:al",
    "ts:cf", "ts:cr", "ts:cl", "ts:cs", "ts:cn", "ts:xf", "b2:cf", "b2:cr", "b2:cl", "b2:cs", "b2:cn", "b2:xf",
-   "l3:cf", "l3:cr", "l3:cl", "l3:cs", "l3:cn", "l3:xf", "b3:sc"]
+   "l3:cf", "l3:cr", "l3:cl", "l3:cs", "l3:cn", "l3:xf", "b3:sc",
+   "l3:tli", "l3:tle", "l3:tlm", "l3:tlk", "l3:tbi", "l3:tbe", "l3:tbm", "l3:tbk", "l3:ili", "l3:ile", "l3:ilm",
+   "l3:ilk", "l3:ibi", "l3:ibe", "l3:ibm", "l3:ibk", "l3:t2i", "l3:t2e", "l3:t2m", "l3:t2k",
+   "l2:tli", "l2:tle", "l2:ili", "l2:ile", "b2:tbi", "b2:tbe", "b2:ibi", "b2:ibe", "ts:rs"]
 
 def chanIdx (c : Char) (chans : Nat) : Option Nat :=
   if c.isDigit && c.toNat - '0'.toNat < 3 && c.toNat - '0'.toNat < chans then some (c.toNat - '0'.toNat) else none
@@ -91,6 +102,7 @@ def parseTimer (s : String) : Option (Char × Nat × Nat) :=
   | _ => none
 
 def passOk (res args : String) : Bool :=
+  if isTwin args then res != "l3" && twinForm args != "t2" else
   (res == "ts" && (args.startsWith "s" || captured args)) || (res == "b2" && (args == "ab" || args == "bs")) || (res == "l2" && args == "al")
 
 def parseDef (ws : List String) : Option Def :=
@@ -101,7 +113,8 @@ def parseDef (ws : List String) : Option Def :=
     if nl == 0 || ch == 0 || !pairs.contains (res ++ ":" ++ args) then none else
     if !["node", "sink", "proj", "pass", "comp"].contains style then none else
     if style == "pass" && !passOk res args then none else
-    if style == "comp" && (!["b2", "b3", "b4", "l2", "l3", "l4"].contains res || captured args || args == "sc") then none else
+    if style == "comp" && (!["b2", "b3", "b4", "l2", "l3", "l4"].contains res || captured args || args == "sc" || isTwin args || args == "rs") then none else
+    if args == "rs" && style != "node" then none else
     let bch := if args == "cs" then 2 else ch
     match parseTimer timer with
     | none => none
@@ -171,7 +184,7 @@ structure BS where
 def nth {α} (l : List α) (i : Nat) (d : α) : α := (l[i]?).getD d
 
 /-- (is an engine cycle, writes per leaf) at time `t` with channel ticks `row` -/
-def bodyStep (df : Def) (t : Nat) (row : List (Option Int)) (s : BS) : BS × Bool × List (Option Int) :=
+def bodyStep (df : Def) (t : Nat) (row : List (Option Int)) (s : BS) (forced : Bool := false) : BS × Bool × List (Option Int) :=
   let nl := df.rules.length
   let vals := (List.range df.bch).map fun j => match nth row j none with
     | some v => some v
@@ -180,13 +193,14 @@ def bodyStep (df : Def) (t : Nat) (row : List (Option Int)) (s : BS) : BS × Boo
   if df.style == "pass" then
     -- no body: the result is the first argument (its leaves are the argument's channels), or, for a capturing
     -- sub-graph, the second captured port
-    let base := if captured df.args then 1 else 0
+    let base := if captured df.args && !isTwin df.args then 1 else 0
     ({ s with vals := vals }, anyTick, (List.range nl).map fun i => nth row (base + i) none) else
   let due := s.armed == some t
   let gate := if ["ab", "al", "bs"].contains df.args then (nth vals 0 none).isSome || (nth vals 1 none).isSome
               else (nth vals 0 none).isSome
-  let ev := (anyTick || due) && gate
-  if !ev then ({ s with vals := vals, armed := if due then none else s.armed }, anyTick || due, List.replicate nl none) else
+  -- `forced`: the body node was scheduled by the sampled-initialisation step of a late start although nothing ticked
+  let ev := (anyTick || due || forced) && gate
+  if !ev then ({ s with vals := vals, armed := if due then none else s.armed }, anyTick || due || forced, List.replicate nl none) else
   let first := !s.evaluated
   let acc := s.acc + (row.foldl (fun a x => a + x.getD 0) 0)
   let ticks := (List.range nl).map fun i =>
@@ -230,19 +244,126 @@ def thaw (tbl : List (Term × List Link)) (i : Nat) : Chain :=
 
 def showLeaves (xs : List (Nat × String)) : String := "{" ++ ",".intercalate (xs.map (·.2)) ++ "}"
 
-def runMode (df : Def) (hist : List (List (Option Int))) (D : Nat) : String := Id.run do
-  let L := df.rules.length
-  let comp := df.style == "comp"
-  let pre := df.style == "pass"
-  let mut bs : BS := { vals := List.replicate df.bch none, counts := List.replicate L 0,
-                       armed := if df.timer == 's' && df.style != "pass" then some (1 + df.tOff) else none }
-  let mut tr : Tree := thaw (snapshot D L (startTree comp D L 1))
+/-! twins: the two body inputs are the outputs of two twin nodes, each reading one element of the structured
+    parameter.  WHICH element a twin reads in the compiled child is decided by the interning model
+    (`HgVerif.BoundaryKey.servedByWith sourceKeyFor`: the node that serves a request has the inputs of the first request
+    with the same key); inlined the sources are peered outputs. -/
+open HgVerif.BoundaryKey in
+def twinReqs (args : String) (D : Nat) : List Req :=
+  let form := twinForm args
+  let code := twinCode args
+  (List.range 2).map fun j =>
+    let ident := code == 'i' || (code == 'm' && j == 0)
+    let k := if ident then 0 else if code == 'k' && j == 1 then 3 else 2
+    let src : Src :=
+      if D == 0 then (if form == "tl" || form == "tb" then .peered 0 [j] 0 1 else .peered j [] 0 1)
+      else (if form == "t2" then .declared j [] 1 else .declared 0 [j] 1)
+    { defn := if ident then 1 else 2, scalars := k, inputs := [(src, [0])] }
+
+open HgVerif.BoundaryKey in
+def srcColumn : Src → Nat
+  | .peered n p _ _ => n + p.headD 0
+  | .declared a p _ => a + p.headD 0
+  | .captured i p _ => i + p.headD 0
+
+open HgVerif.BoundaryKey in
+/-- (history column, is-echo, delay) of the twin that feeds body input `j` -/
+def twinPlan (args : String) (D : Nat) : List (Nat × Bool × Nat) :=
+  let rs := twinReqs args D
+  rs.map fun r =>
+    let served := (servedByWith sourceKeyFor rs r).getD r
+    let col := match served.inputs with
+      | (src, _) :: _ => srcColumn src
+      | [] => 0
+    (col, served.defn == 2, served.scalars)
+
+/-- one step of the twins: pending echoes (due time, value) per body input -/
+def twinStep (plan : List (Nat × Bool × Nat)) (t : Nat) (row : List (Option Int)) (pend : List (Option (Nat × Int))) :
+    List (Option Int) × List (Option (Nat × Int)) :=
+  let r := (List.range plan.length).map fun j =>
+    let (col, echo, k) := nth plan j (0, false, 0)
+    let x := nth row col none
+    let p := nth pend j none
+    if !echo then (x, none) else
+    match x with
+    | some v => (some v, some (t + k, v + 100))
+    | none =>
+      match p with
+      | some (due, e) => if due == t then (some e, none) else (none, p)
+      | none => (none, none)
+  (r.map (·.1), r.map (·.2))
+
+/-- a REF-producing terminal exposed as a plain result: columns pick, lhs, rhs (`HgVerif.NestRef`) -/
+def runRef (hist : List (List (Option Int))) (D : Nat) : String := Id.run do
+  let mut c : HgVerif.NestRef.Chain := HgVerif.NestRef.start D 1
   let mut cycs : List String := []
   let mut entries : List String := []
   let mut t := 1
   for row in hist do
-    let (bs', isCyc, writes) := bodyStep df t (bodyRow df.args D row) bs
+    if row.any (·.isSome) then
+      cycs := cycs ++ [toString t]
+      let ws := ((List.range 2).filterMap fun i => (nth row (i + 1) none).map fun v => (i, v))
+      let pick := (nth row 0 none).map fun v => if v != 0 then 1 else 0
+      c := HgVerif.NestRef.cycle D { t := t, ws := ws, pick := pick } c
+      if HgVerif.NestRef.outerMod D t c then
+        let d := match HgVerif.NestRef.outerDelta D t c with
+          | some v => s!"0={v}"
+          | none => ""
+        let v := match HgVerif.NestRef.outerVal D c with
+          | some v => s!"0={v}"
+          | none => ""
+        let g := if HgVerif.NestRef.outerGhost D t c then "0" else ""
+        entries := entries ++ [s!"{t} d=\{{d}} v=\{{v}} g=\{{g}}"]
+    t := t + 1
+  return " | ".intercalate (["ok cyc=" ++ ",".intercalate cycs] ++ entries)
+
+/-- `startAt = some k`: the sub-graph lives in a switch_ branch selected at cycle `k` (late start); `D = 0` there means
+    inlined in the branch, whose boundary inputs are bound SAMPLED (every valid argument reads as modified at `k`);
+    a nested_ node binds its inputs plain and only schedules the consumers. -/
+def runMode (df : Def) (hist : List (List (Option Int))) (D : Nat) (startAt : Option Nat := none) : String := Id.run do
+  if df.args == "rs" then return runRef hist D
+  let L := df.rules.length
+  let comp := df.style == "comp"
+  let pre := df.style == "pass"
+  let t0 := startAt.getD 1
+  let twins := isTwin df.args && !pre
+  let plan := if twins then twinPlan df.args D else []
+  -- a pass-through of a STRUCTURAL {a, b} argument: the ParentInput binding finds no bound output on the non-peered
+  -- outer input position and clears the forwarding tree (HgVerif.BoundaryKey.parentInputSource): nothing is forwarded
+  let unbound := pre && isTwin df.args && D ≥ 1 &&
+    (HgVerif.BoundaryKey.parentInputSource (if (twinForm df.args).startsWith "i" then .structuralInitializer else .peeredOutput)).isNone
+  let mut bs : BS := { vals := List.replicate df.bch none, counts := List.replicate L 0,
+                       armed := if df.timer == 's' && df.style != "pass" && 1 + df.tOff ≥ t0 then some (1 + df.tOff) else none }
+  let mut pend : List (Option (Nat × Int)) := [none, none]
+  let mut tr : Tree := thaw (snapshot D L (startTree comp D L t0))
+  let mut cycs : List String := []
+  let mut entries : List String := []
+  let mut t := 1
+  for row in hist do
+    if t < t0 then
+      -- before the branch exists: the arguments only accumulate their values
+      bs := { bs with vals := (List.range df.bch).map fun j => match nth row j none with
+        | some v => some v
+        | none => nth bs.vals j none }
+      if row.any (·.isSome) then cycs := cycs ++ [toString t]
+      t := t + 1
+      continue
+    let mut brow0 := bodyRow df.args D row
+    if twins then
+      let r := twinStep plan t row pend
+      pend := r.2
+      brow0 := r.1
+    let late := startAt.isSome && t == t0
+    let valsNow := (List.range df.bch).map fun j => match nth brow0 j none with
+      | some v => some v
+      | none => nth bs.vals j none
+    let forced := late && valsNow.any (·.isSome)
+    let brow := if late && D == 0 then valsNow else brow0
+    let (bs', isCyc0, writes) := bodyStep df t brow bs forced
     bs := bs'
+    let isCyc := isCyc0 && !unbound
+    if (isCyc0 || late) && !isCyc0 then cycs := cycs ++ [toString t]
+    if isCyc0 && unbound then cycs := cycs ++ [toString t]
     if isCyc then
       cycs := cycs ++ [toString t]
       let cy : Cycle := { t := t, pre := pre, w := fun i => nth writes i none }
@@ -256,8 +377,22 @@ def runMode (df : Def) (hist : List (List (Option Int))) (D : Nat) : String := I
     t := t + 1
   return " | ".intercalate (["ok cyc=" ++ ",".intercalate cycs] ++ entries)
 
-def modeDepth : String → Option Nat
-  | "inl" => some 0 | "n1" => some 1 | "n2" => some 2 | "n3" => some 3 | "n4" => some 4 | "nw" => some 2 | _ => none
+/-- (depth, late start cycle) -/
+def parseMode (df : Def) (nhist : Nat) (m : String) : Option (Nat × Option Nat) :=
+  match m with
+  | "inl" => some (0, none) | "n1" => some (1, none) | "n2" => some (2, none) | "n3" => some (3, none)
+  | "n4" => some (4, none) | "nw" => some (2, none)
+  | _ =>
+    match m.toList with
+    | 's' :: d :: '@' :: rest =>
+      match natOfChars rest with
+      | some k =>
+        if d.isDigit && d.toNat - '0'.toNat ≤ 2 && 1 ≤ k && k ≤ nhist &&
+           ["ts:s1", "b2:s2", "l3:s2", "b3:s3"].contains (df.res ++ ":" ++ df.args) &&
+           ["node", "sink", "proj"].contains df.style
+        then some (d.toNat - '0'.toNat, some k) else none
+      | none => none
+    | _ => none
 
 def step (s : DS) (ws : List String) : DS × String :=
   match ws with
@@ -276,9 +411,13 @@ def step (s : DS) (ws : List String) : DS × String :=
       | some row => ({ s with hist := s.hist ++ [row] }, "ok")
       | none => (s, "bad-op")
   | ["run", m] =>
-    match s.d, modeDepth m with
-    | some df, some D => if s.hist.isEmpty then (s, "bad-op") else (s, runMode df s.hist D)
-    | _, _ => (s, "bad-op")
+    match s.d with
+    | some df =>
+      if s.hist.isEmpty then (s, "bad-op") else
+      match parseMode df s.hist.length m with
+      | some (D, st) => (s, runMode df s.hist D st)
+      | none => (s, "bad-op")
+    | none => (s, "bad-op")
   | [] => (s, "")
   | _ => (s, "bad-op")
 
